@@ -64,6 +64,8 @@ int dsched_thread_state(int tid, int* timed);
 // Let everybody else run until nobody else is runnable (they are all blocked) or `max_points`.
 // Returns 1 if quiescent was reached. Used to bring pool workers to the parked state.
 int dsched_settle(uint64_t max_points);
+// after dsched_end: 1 if a block freed during the case (operator delete / free) was written to afterwards
+int dsched_check_heap(char* msg, unsigned long cap);
 // block calling thread for virtual ns
 void dsched_sleep_ns(uint64_t ns);
 // last few decisions, human readable (for samples / replay files)
